@@ -21,6 +21,11 @@ for p in props:
             "Each run re-audits them (#print axioms within propext/Classical.choice/Quot.sound, no sorry) and re-ties the model to /repo's working tree by a "
             "correspondence check (real tracklib in-process vs the model's executable definitions through the native driver) on corpus + enumerated small scopes + seeded random cases, "
             "plus the property's independent oracle on the implementation's outputs (transfer check)." % (P.modelled, ", ".join(names)))
+    if P.tie_modules:
+        tie_names = [t[1].split(".")[-1] for t in P.theorems if t[0] in P.tie_modules]
+        text += (" Translation tie: tools/py2lean.py re-translates the whitelisted pure functions of this property from /repo's current source into Lean on every run "
+                 "(lean/TracklibVerif/Gen) and the theorems %s (%s) prove the translated definitions equal to the hand-written model on all arguments; a change to such a "
+                 "function breaks that proof obligation even when no sampled input shows it." % (", ".join(tie_names), ", ".join(P.tie_modules)))
     if P.partial:
         text += " Partial theorems: " + "; ".join(P.partial) + "."
     if P.open_statements:
@@ -33,8 +38,8 @@ for p in props:
         "replay_cmd_template": "./check %s --replay {path}" % pid,
         "engine": "lean4-model+correspondence",
         "level_claimed": {"category": "proof", "text": text, "design_ref": P.design_ref},
-        "level_note": "Trusted: Lean 4.33 kernel, Mathlib lemmas imported, axioms propext/Classical.choice/Quot.sound only; the model is hand-written and tied to the code only by the correspondence check (bounded by its generators); CPython/numpy/libm and IEEE-754 rounding are outside the theorems (sampled). " + " ".join(P.trusted),
-        "technique": "Lean 4 theorems over an executable model + differential correspondence with the Python implementation",
+        "level_note": "Trusted: Lean 4.33 kernel, Mathlib lemmas imported, axioms propext/Classical.choice/Quot.sound only; the model is hand-written and tied to the code by the correspondence check (bounded by its generators)" + (" and, for the whitelisted pure functions, by the py2lean translation tie (trusted: the ~700-line syntax-directed translator, Model/PyPrelude.lean's rendering of float /, ==, fabs, min/max, indexing, the declared signatures; libm functions uninterpreted)" if P.tie_modules else "") + "; CPython/numpy/libm and IEEE-754 rounding are outside the theorems (sampled). " + " ".join(P.trusted),
+        "technique": "Lean 4 theorems over an executable model + differential correspondence with the Python implementation" + (" + source-to-Lean translation tie (py2lean) with machine-checked equality to the model" if P.tie_modules else ""),
     })
 m = {
     "version": 1,
